@@ -264,6 +264,9 @@ def whole_runs(chk):
     files = {'Probe.sol': probe, 'sub/Probe.sol': '\n' + probe, 'sub/deep/Other.sol': dl.file_text(['solidity_math', 'sstore', 'divide_before_multiply', 'constructor_order'], 3),
              'Many.sol': 'pragma solidity ^0.8.16;\ncontract M {\n%s}\n' % ''.join(
                  '    function f%d(\n        uint256[] memory a%d,\n        string memory b%d,\n        bytes memory c%d\n    ) external { a%d; }\n' % ((i,) * 5) for i in range(6))}
+    # entries that are not analysed are part of the directory content too: wherever the listing puts them, the report is the same
+    files.update({'Probe.t.sol': probe, 'README.md': '# readme\n', 'sub/abi.json': '{}\n', 'sub/Setup.t.sol': dl.file_text(['sstore', 'floating_pragma'], 1),
+                  'sub/deep/.gitkeep': ''})
     for rel, text in files.items():
         open(os.path.join(root, 'proj', rel), 'w').write(text)
     binary = os.path.join(chk.world.build, 'solstat')
